@@ -582,7 +582,9 @@ def _ctor_projection(q):
         if term is not None and fl.params:
             me = V(fl.params[0])
             leaves = [x for x in walk(term) if x[0] == 'ret' and len(x) == 3]
-            taken = {n for c in prog.mro(ci) for n in list(c.methods) + list(c.class_attrs)}
+            # (a bare annotation `lower: int` in the class body declares a field, it does not define a class attribute)
+            # and a plain class-level value is shadowed by the instance attribute; only descriptors (methods, properties) win)
+            taken = {n for c in prog.mro(ci) for n in list(c.methods) + [a_ for a_, v_ in c.class_attrs.items() if isinstance(v_, ast.Call)]}
             if leaves and not any(x[0] in ('loop', 'try') for x in walk(term)):
                 cand = None
                 for lf in leaves:
@@ -1803,6 +1805,10 @@ def norm(t):
         if t[3][0] == 'map' and t[2] == ('list', ()):
             return ('map', t[3][1], ('if', c, ('list', ()), t[3][2]))
         return t
+    if k == 'cmp' and t[1] in ('Eq', 'NotEq') and _const_display(t[2]) and _const_display(t[3]):
+        # two constants (or tuples of constants): Python's own equality decides
+        py = lambda x: x[1] if x[0] == 'const' else tuple(py(y) for y in x[1])
+        return C((py(t[2]) == py(t[3])) == (t[1] == 'Eq'))
     if k == 'cmp':
         a, b = t[2], t[3]
         # axiom: graphlib.TopologicalSorter.prepare() returns None (it is called for its exception): None == X.prepare() is
@@ -2043,6 +2049,8 @@ def norm_call(fn, args, kw):
         g = fn[1]
         if g == 'maz.compose' and not kw:
             return compose(args)
+        if g == 'tuple' and len(args) == 1 and not kw and args[0][0] == 'tuple':
+            return args[0]                  # tuple((a, b)) is (a, b)
         if g == 'pickle.dumps' and args and (len(args) == 2 or any(k_ == 'protocol' for k_, _ in kw)):
             # which pickle protocol is written is not observable through pickle.loads (it reads every protocol)
             return call(fn, args[:1], [(k_, v_) for k_, v_ in kw if k_ != 'protocol'])
@@ -2264,6 +2272,13 @@ def norm_call(fn, args, kw):
         # X.ravel().tolist() is X.flatten().tolist() (the view / copy difference does not survive tolist())
         if m == 'tolist' and not args and not kw and o[0] == 'call' and o[1][0] == 'attr' and o[1][2] == 'ravel' and not o[2] and not o[3]:
             return call(('attr', call(('attr', o[1][1], 'flatten')), 'tolist'))
+        # {k1: v1, k2: v2}.get(k, d) with constant keys and a constant k
+        if m == 'get' and 1 <= len(args) <= 2 and not kw and o[0] == 'dict' and args[0][0] == 'const' and o[1] and \
+                all(kv[0] == 'kw' and kv[1][0] == 'const' for kv in o[1]) and all(_total(kv[2]) for kv in o[1]):
+            for kv in o[1]:
+                if kv[1] == args[0] and type(kv[1][1]) is type(args[0][1]):
+                    return kv[2]
+            return args[1] if len(args) == 2 else NONE
         # an array of positions taken from enumerate(...) is an int64 array already (differs for the empty one's dtype only)
         if m == 'astype' and len(args) == 1 and not kw and args[0] in (G('numpy.int64'), G('int')) and o[0] == 'call' \
                 and o[1] == G('numpy.array') and len(o[2]) == 1 and not o[3] and o[2][0][0] == 'map' and o[2][0][1][0] == 'lam' \
